@@ -685,3 +685,6 @@ fn test_limit1() {
         result_rows[9].columns[2]
     );
 }
+#[cfg(kani)]
+#[path = "/verif/kani/execution_engine.rs"]
+mod verif_kani;
